@@ -29,7 +29,7 @@ TLC_CONSTS = {
     "quick": {"Variant": '"fixed"', "Topos": g.tla_set(["face2", "edge2", "ell3", "hook3"]), "Rot1Choice": "{1}",
               "RotChoice": "{1, 4, 30, 43}", "ChopOpts": g.tla_set(["A2", "D1E2"]), "MaxChopped": "0", "Cover": "TRUE",
               "AllOrders": "FALSE", "PassBound": "4"},
-    "thorough": {"Variant": '"fixed"', "Topos": g.tla_set(["face2", "edge2", "row3", "ell3", "hook3", "stair3", "sq4"]),
+    "thorough": {"Variant": '"fixed"', "Topos": g.tla_set(["face2", "edge2", "row3", "ell3", "hook3", "stair3"]),
                  "Rot1Choice": "{1, 11}", "RotChoice": "{1, 4, 7, 30, 43}", "ChopOpts": g.tla_set(["A2", "D1E2"]),
                  "MaxChopped": "0", "Cover": "TRUE", "AllOrders": "FALSE", "PassBound": "4"},
 }
@@ -185,6 +185,7 @@ def lattice_configs(ctx: Ctx, rng: random.Random, limit: int) -> None:
         c["sandwich"] = True
     cfgs = cfgs + extra[: limit // 4]
     recs, meta = [], {}
+    recs_moved: List[dict] = []
     for cfg in cfgs:
         sp = []
         for _ in range(3):
@@ -258,7 +259,27 @@ def lattice_configs(ctx: Ctx, rng: random.Random, limit: int) -> None:
         meta[rec["id"]] = {"kinds": "".join(sorted(kinds)), "cfg": g.summarize(cfg), "req": req}
         recs.append(rec)
         ctx.sample({"verts": cfg["verts"], "laws": meta[rec["id"]]["kinds"], "req": req})
+        # the same mesh written once more after one of its vertices was moved (no backport): sizes and ratios are those of
+        # the geometry as it is now, on every edge and from either block - nothing of the first write is left
+        if "arc" not in kinds and not cfg.get("sandwich") and rng.random() < 0.8:
+            try:
+                v = rng.choice(list(mesh.vertices))
+                d = [rng.choice([-1, 1]) * rng.uniform(0.1, 0.2) * scale for _ in range(3)]
+                v.move_to([v.position[i] + d[i] for i in range(3)])
+                force_schedule(mesh, random.Random(rng.random()))
+                mesh.write(path)
+                with open(path, encoding="utf-8") as f:
+                    parsed2 = bmd.parse_blockmeshdict(f.read())
+            except Exception as err:  # pylint: disable=broad-except
+                ctx.violation(f"sizes:write-fails:after-move:{type(err).__name__}", f"a well-posed configuration could not be written again "
+                              f"after a vertex was moved: {err}", {"cfg": g.summarize(cfg)})
+                continue
+            ctx.evaluated()
+            rec2 = record_from_file(len(recs) + len(recs_moved) + 100001, parsed2, req)
+            meta[rec2["id"]] = {"kinds": "".join(sorted(kinds)), "cfg": g.summarize(cfg), "req": req}
+            recs_moved.append(rec2)
     judge(ctx, recs, meta, "lattice")
+    judge(ctx, recs_moved, meta, "lattice-after-move")
 
 
 def judge(ctx: Ctx, recs: List[dict], meta: Dict[int, dict], family: str) -> None:
